@@ -581,7 +581,30 @@ pub fn cases(tier: Tier) -> Vec<Case04> {
             let pd = PlanDesc::TypePair { ty: crate::vals::type_name(t), a: i, b: (i + 1) % n };
             let mut e = enc::base_encoding(&plan_of(&pd));
             e.comp = vec![[Comp::None, Comp::Lz4, Comp::Zstd][i % 3]];
-            out.push(Case04 { plan: pd, enc: e, dim: format!("type-layout:{}", crate::vals::type_name(t)) });
+            out.push(Case04 { plan: pd.clone(), enc: e.clone(), dim: format!("type-layout:{}", crate::vals::type_name(t)) });
+            // (only where the snapped form is bit for bit the value itself: a negative zero inside an
+            // axis-aligned matrix survives the long form and not the short one)
+            let bits = |v: &Variant| -> Vec<u32> {
+                let m = match v {
+                    Variant::CFrame(c) => Some(c.orientation),
+                    Variant::OptionalCFrame(Some(c)) => Some(c.orientation),
+                    _ => None,
+                };
+                m.map(|m| [m.x.x, m.x.y, m.x.z, m.y.x, m.y.y, m.y.z, m.z.x, m.z.y, m.z.z].iter().map(|f| f.to_bits()).collect()).unwrap_or_default()
+            };
+            let exact = |v: &Variant| -> bool {
+                let snapped = match v {
+                    Variant::CFrame(c) => Variant::CFrame(rbx_dom_weak::types::CFrame::new(c.position, crate::vals::snap_rotation(&c.orientation))),
+                    Variant::OptionalCFrame(Some(c)) => Variant::OptionalCFrame(Some(rbx_dom_weak::types::CFrame::new(c.position, crate::vals::snap_rotation(&c.orientation)))),
+                    o => o.clone(),
+                };
+                bits(&snapped) == bits(v)
+            };
+            if matches!(t, rbx_dom_weak::types::VariantType::CFrame | rbx_dom_weak::types::VariantType::OptionalCFrame) && exact(&al[i].v) && exact(&al[(i + 1) % n].v) {
+                // every rotation (also an absent value's placeholder) as id 00 + nine floats
+                e.cframe_long = true;
+                out.push(Case04 { plan: pd, enc: e, dim: format!("type-layout-cframe-long-form:{}", crate::vals::type_name(t)) });
+            }
         }
     }
     for (dim, e) in encodings_for(&PlanDesc::Service, tier) {
